@@ -442,6 +442,14 @@ class Poly:
             ((m, c),) = self.t.items()
             k, mm = mono_pow(m, -1)
             return _post(Poly({mm: c.inv() * k}))
+        inds = sorted({a for m in self.t for a, e in m if a[0] == "ind"}, key=repr)
+        if inds and len(inds) <= 3:
+            # Shannon expansion on an idempotent indicator: 1/(chi*a + (1-chi)*b) = chi/a + (1-chi)/b
+            chi = inds[0]
+            p1, p0 = subs(self, {chi: Poly.const(1)}), subs(self, {chi: Poly()})
+            if p1.t and p0.t:
+                x = Poly.atom(chi)
+                return x * p1.inverse() + (1 - x) * p0.inverse()
         b, n = perfect_root(self)
         if n > 1:
             return b.inverse() ** n
